@@ -208,7 +208,8 @@ Theorem remove_data_h_exact s d x strict :
   Inv s -> wf_targets s -> ann_refs_ok s ->
   let s' := fst (remove_data_h s d x strict) in
   (forall y, get_ann s y <> None -> (get_ann s' y = None <-> In y (deps_data s d x strict)))
-  /\ (forall y a', get_ann s' y = Some a' -> exists a, get_ann s y = Some a /\ a' = ann_remove_data a d x).
+  /\ (forall y a', get_ann s' y = Some a' -> exists a, get_ann s y = Some a /\ a' = ann_remove_data a d x
+         /\ (uses_data d x a = true -> a_data a' <> [])).
 Proof.
   intros HI Hwf Hrf. rewrite remove_data_h_unfold. cbv zeta.
   set (users := tget (ddam s) d x).
@@ -282,7 +283,8 @@ Proof.
         rewrite (D2 r Hin) in E2. discriminate.
   - (* survivors keep everything but the data item *)
     intros y a' Hy. rewrite Hfin in Hy. pose proof (P_sub _ _ _ _ P2 y a' Hy) as Hy1.
-    destruct (Tsurv y a' Hy1) as (a0 & Ha0 & [[Hn ->]|(_ & _ & He & _)]); exists a0; (split; [exact Ha0|]); [|exact He].
-    symmetry. apply ann_remove_data_id. destruct (uses_data d x a0) eqn:U; [|reflexivity].
-    exfalso. apply Hn. left. apply Husers. exists a0. tauto.
+    destruct (Tsurv y a' Hy1) as (a0 & Ha0 & [[Hn ->]|(_ & _ & He & Hne)]); exists a0; (split; [exact Ha0|]); [|split; [exact He|intros _; exact Hne]].
+    assert (U : uses_data d x a0 = false).
+    { destruct (uses_data d x a0) eqn:U; [|reflexivity]. exfalso. apply Hn. left. apply Husers. exists a0. tauto. }
+    split; [symmetry; apply ann_remove_data_id; exact U|]. rewrite U. discriminate.
 Qed.
